@@ -470,7 +470,9 @@ func (f *faultyModify) Send(r *spb.ModifyResponse) error {
 	switch f.fault {
 	case "nack-forward-references":
 		for _, res := range r.Result {
-			if res.GetStatus() == spb.AFTResult_FAILED && strings.Contains(res.GetErrorDetails().GetErrorMessage(), "unresolved") {
+			// (whatever the wording of the error: in the designated test every entry is valid, so an ADD can
+			// only be refused for a reference that is not there yet)
+			if op := f.ops[res.GetId()]; res.GetStatus() == spb.AFTResult_FAILED && op != nil && op.GetOp() == spb.AFTOperation_ADD {
 				simrt.Active().Fault("srv-fault:" + f.fault)
 			}
 		}
